@@ -85,7 +85,7 @@ def mon_c01(ex, info, col):
             if any(s != S.T_FINISHED for s in log):
                 out.append(V("C01", "C01:prefinished-task-not-FINISHED-from-start", ex, {"task": tn, "log": log}))
             continue
-        for k in range(1, len(log)):
+        for k in range(max(1, ex.log_start + 1), len(log)):
             col.checks["c01.log"] += 1
             a, b = log[k - 1], log[k]
             if a not in RANK or b not in RANK:
@@ -537,7 +537,7 @@ def mon_c14(ex, info, col):
             if any(s in (S.T_READY, S.T_WORKING) for s in ts) and clog[k] == S.C_NONE:
                 out.append(V("C14", "C14:logged-NONE-while-a-task-is-READY-or-WORKING", ex, {"k": k, "component": cn, "tasks": ts}))
             # (the logs of a backward run that were reversed into forward-time reading run the life cycle backwards: no monotonicity claim)
-            if k > 0 and not (ex.opts.get("backward") and ex.opts.get("rev", True)):
+            if k > ex.log_start and not (ex.opts.get("backward") and ex.opts.get("rev", True)):
                 if clog[k - 1] != S.C_NONE and clog[k] == S.C_NONE:
                     out.append(V("C14", "C14:logged-returned-to-NONE", ex, {"k": k, "component": cn, "log": clog}))
                 if clog[k - 1] == S.C_FINISHED and clog[k] != S.C_FINISHED:
